@@ -975,4 +975,131 @@ example :
       IsActivePeer 0 7 t 4 ∧ (sendResult (beh 4)).received = true ∧ (t.map Row.id).Nodup := by
   refine ⟨by decide, by decide, ⟨⟨4, 7, true⟩, by decide, rfl, rfl, rfl, by decide⟩, by decide, by decide⟩
 
+/-! ## overlapping purges of one cache: every purge is announced on its own -/
+
+theorem receivedOf_append (a b : List (Msg × SendResult)) : receivedOf (a ++ b) = receivedOf a ++ receivedOf b := by
+  simp [receivedOf]
+
+theorem broadcastLoop_pid (self k : Nat) (beh : Nat → PeerBeh) (c : Int) (pid : Option Nat) (l : List Row) :
+    ∀ x ∈ broadcastLoop self k beh c pid l, x.1.pid = pid := by
+  induction l with
+  | nil => simp [broadcastLoop]
+  | cons q l ih =>
+    intro x hx
+    simp only [broadcastLoop, List.mem_cons] at hx
+    rcases hx with rfl | hx
+    · rfl
+    · exact ih x hx
+
+/-- every request of a purge carries that purge's number -/
+theorem purgeNodeWith_pid (self : Nat) (cl : Option Nat) (db hook on notify : Bool) (t : List Row)
+    (beh : Nat → PeerBeh) (c : Int) (pid : Option Nat) :
+    ∀ m ∈ receivedOf (purgeNodeWith self cl db hook on notify t beh c pid).2.2, m.pid = pid := by
+  intro m hm
+  simp only [receivedOf, List.mem_map, List.mem_filter] at hm
+  obtain ⟨x, ⟨hx, _⟩, rfl⟩ := hm
+  unfold purgeNodeWith at hx
+  simp only at hx
+  split at hx
+  · unfold broadcastWith at hx
+    cases cl with
+    | none => simp at hx
+    | some k =>
+      cases db
+      · simp at hx
+      · exact broadcastLoop_pid self k beh c pid _ x (by simpa using hx)
+  · simp at hx
+
+/-- the requests of a burst are numbered from `pid0` upwards -/
+theorem purgeBurstWith_pid_ge (self : Nat) (cl : Option Nat) (db hook on : Bool) (t : List Row) (beh : Nat → PeerBeh)
+    (c : Int) (n : Nat) : ∀ pid0, ∀ m ∈ receivedOf (purgeBurstWith self cl db hook on t beh c pid0 n),
+      ∃ q, m.pid = some q ∧ pid0 ≤ q := by
+  induction n with
+  | zero => intro pid0 m hm; simp [purgeBurstWith, receivedOf] at hm
+  | succ n ih =>
+    intro pid0 m hm
+    rw [purgeBurstWith, receivedOf_append, List.mem_append] at hm
+    rcases hm with hm | hm
+    · exact ⟨pid0, purgeNodeWith_pid _ _ _ _ _ _ _ _ _ _ m hm, Nat.le_refl _⟩
+    · obtain ⟨q, hq, hle⟩ := ih (pid0 + 1) m hm
+      exact ⟨q, hq, by omega⟩
+
+/-- **C29_burst_every_peer_counts.** `n` purges of one cache on a node, however they overlap with the broadcasts still
+    in progress (the model keeps nothing between purges): an active peer whose endpoint receives requests at all
+    receives exactly `n` of them — whatever the other peers do, in particular while one of them sits on its request. -/
+theorem C29_burst_every_peer_counts (self k : Nat) (t : List Row) (beh : Nat → PeerBeh) (c : Int)
+    (hnd : (t.map Row.id).Nodup) (p : Nat) (hp : IsActivePeer self k t p)
+    (hrec : (sendResult (beh p)).received = true) (n : Nat) : ∀ pid0,
+    ((receivedOf (purgeBurstWith self (some k) true true true t beh c pid0 n)).filter
+      (fun m => m.dest == p)).length = n := by
+  induction n with
+  | zero => intro pid0; simp [purgeBurstWith, receivedOf]
+  | succ n ih =>
+    intro pid0
+    rw [purgeBurstWith, receivedOf_append, List.filter_append, List.length_append, ih (pid0 + 1),
+      C29_slow_peer_isolated self k t beh c (some pid0) hnd p hp hrec]
+    omega
+
+/-- **C29_overlapping_purges_each_announced.** Every single purge of the burst (the `j`-th, numbered `pid0 + j`) is
+    announced to every active peer whose endpoint receives requests by EXACTLY ONE request of its own: a later purge
+    is never left to a broadcast that an earlier purge started (whose requests may already have been delivered, and
+    the peer's cache reloaded since). -/
+theorem C29_overlapping_purges_each_announced (self k : Nat) (t : List Row) (beh : Nat → PeerBeh) (c : Int)
+    (hnd : (t.map Row.id).Nodup) (p : Nat) (hp : IsActivePeer self k t p)
+    (hrec : (sendResult (beh p)).received = true) (n : Nat) : ∀ pid0 j, j < n →
+    ((receivedOf (purgeBurstWith self (some k) true true true t beh c pid0 n)).filter
+      (fun m => m.dest == p && m.pid == some (pid0 + j))).length = 1 := by
+  induction n with
+  | zero => intro pid0 j hj; omega
+  | succ n ih =>
+    intro pid0 j hj
+    rw [purgeBurstWith, receivedOf_append, List.filter_append, List.length_append]
+    cases j with
+    | zero =>
+      -- the first purge: its own broadcast serves p; no later request carries its number
+      have h1 : (receivedOf (purgeNodeWith self (some k) true true true true t beh c (some pid0)).2.2).filter
+          (fun m => m.dest == p && m.pid == some (pid0 + 0)) =
+          (receivedOf (purgeNodeWith self (some k) true true true true t beh c (some pid0)).2.2).filter
+          (fun m => m.dest == p) := by
+        apply List.filter_congr
+        intro m hm
+        simp [purgeNodeWith_pid _ _ _ _ _ _ _ _ _ _ m hm]
+      have h2 : (receivedOf (purgeBurstWith self (some k) true true true t beh c (pid0 + 1) n)).filter
+          (fun m => m.dest == p && m.pid == some (pid0 + 0)) = [] := by
+        apply List.filter_eq_nil_iff.2
+        intro m hm
+        obtain ⟨q, hq, hle⟩ := purgeBurstWith_pid_ge _ _ _ _ _ _ _ _ _ _ m hm
+        have : q ≠ pid0 := by omega
+        simp [hq, this]
+      rw [h1, h2, C29_slow_peer_isolated self k t beh c (some pid0) hnd p hp hrec]
+      rfl
+    | succ j =>
+      have h1 : (receivedOf (purgeNodeWith self (some k) true true true true t beh c (some pid0)).2.2).filter
+          (fun m => m.dest == p && m.pid == some (pid0 + (j + 1))) = [] := by
+        apply List.filter_eq_nil_iff.2
+        intro m hm
+        simp [purgeNodeWith_pid _ _ _ _ _ _ _ _ _ _ m hm]
+      have h2 := ih (pid0 + 1) j (by omega)
+      have e : pid0 + 1 + j = pid0 + (j + 1) := by omega
+      rw [e] at h2
+      rw [h1, h2]
+      rfl
+
+/-- the hook fires once per purge of the burst -/
+theorem C29_burst_fires_each (n : Nat) : purgeBurstFired true true n = n := by
+  simp [purgeBurstFired, cachePurge]
+
+/-- non-vacuity (the scenario of the harness corpus): node 0, peers 1 (fast), 2 (sits on its request, answers within the
+    limit), 3 (fast); three purges of cache 5 while 2 holds the first: 1, 2 and 3 each receive three requests, one per
+    purge number. -/
+example :
+    let t : List Row := [⟨0, 7, true⟩, ⟨1, 7, true⟩, ⟨2, 7, true⟩, ⟨3, 7, true⟩]
+    let beh : Nat → PeerBeh := fun i => if i = 2 then .answers 200 1 else .answers 200 0
+    let r := receivedOf (purgeBurstWith 0 (some 7) true true true t beh 5 10 3)
+    r.map (fun m => (m.dest, m.pid)) =
+        [(1, some 10), (2, some 10), (3, some 10), (1, some 11), (2, some 11), (3, some 11),
+         (1, some 12), (2, some 12), (3, some 12)] ∧
+      IsActivePeer 0 7 t 1 ∧ (sendResult (beh 1)).received = true ∧ (t.map Row.id).Nodup := by
+  refine ⟨by decide, ⟨⟨1, 7, true⟩, by decide, rfl, rfl, rfl, by decide⟩, by decide, by decide⟩
+
 end EgoVerif.C29
